@@ -4,8 +4,8 @@ import copy
 from ..core.shrink import list_removals
 from . import gen, ir
 
-ALL_EDITS = ["var", "ver", "comment", "lit", "rtx", "default", "unrelated", "reorder", "ext", "move", "respell", "path", "lzver", "tmpl"]
-INSIDE_EDITS = ["var", "ver", "comment", "lit", "rtx", "default", "lzver", "tmpl"]
+ALL_EDITS = ["var", "ver", "comment", "lit", "rtx", "default", "unrelated", "reorder", "ext", "move", "respell", "path", "lzver", "tmpl", "bfver"]
+INSIDE_EDITS = ["var", "ver", "comment", "lit", "rtx", "default", "lzver", "tmpl", "bfver"]
 OUTSIDE_EDITS = ["unrelated", "reorder", "ext", "move", "respell"]
 
 
@@ -114,6 +114,10 @@ def gen_history(streams, tier, profile):
             if e is None and feat.get("tmpl") and "tmpl" in profile["edits"] and hrng.random() < 0.4:
                 e = gen.gen_edit(hrng, cur, ["tmpl"])
                 if e["kind"] != "tmpl":
+                    e = None
+            if e is None and feat.get("bshadows") and "bfver" in profile["edits"] and hrng.random() < 0.4:
+                e = gen.gen_edit(hrng, cur, ["bfver"])
+                if e["kind"] != "bfver":
                     e = None
             if e is None and feat.get("lazy") and "lzver" in profile["edits"] and hrng.random() < 0.4:
                 e = gen.gen_edit(hrng, cur, ["lzver"])
@@ -387,6 +391,8 @@ def feature_tags(case):
                 t.add("pathspell:" + it["t"])
             if it.get("thread"):
                 t.add("load:thread")
+            if it["t"] == "shadow" and it["name"] in ir.BUILTIN_NAMES:
+                t.add("shadow:builtin")
             if it.get("rtarg") is not None:
                 t.add("call:rtarg")
             if it["t"] == "eval" and it.get("spell", "dds") != "dds":
